@@ -59,9 +59,51 @@ def bitmap(obj, frame):
             for y in range(PMAX + 1) for x in range(PMAX + 1)]
 
 
+QUICK_OBLIGATIONS = ["RectRect", "RectCirc", "Convex1D", "CauchySchwarz", "DotBound", "Expand",
+                     "SumBound"]
+THOROUGH_OBLIGATIONS = QUICK_OBLIGATIONS + ["CircRect"]
+
+
+def _apalache(name):
+    import os
+    import shutil
+    import subprocess
+    out = os.path.join(common.WORK, "apalache-%s-%d" % (name, os.getpid()))
+    cmd = ["apalache-mc", "check", "--init=Init", "--next=Next", "--inv=" + name, "--length=0",
+           "--out-dir=" + out, "GeoProof.tla"]
+    try:
+        proc = subprocess.run(cmd, cwd=common.SPEC, stdout=subprocess.PIPE,
+                              stderr=subprocess.STDOUT, text=True, timeout=600)
+        text = proc.stdout
+    except subprocess.TimeoutExpired:
+        text = "TIMEOUT"
+    finally:
+        shutil.rmtree(out, ignore_errors=True)
+    if "The outcome is: NoError" in text:
+        return name, "discharged"
+    if "The outcome is: Error" in text or "violat" in text.lower():
+        return name, "REFUTED"
+    return name, "not discharged (%s)" % ("timeout" if text == "TIMEOUT" else "tool error")
+
+
+def unbounded_obligations(tier):
+    """
+    Apalache (SMT) discharges the soundness obligations of containsRegion for ALL integers:
+    rect/rect, rect/disc, disc/rect directly; disc/disc through the staged lemmas
+    CauchySchwarz, DotBound, Expand, SumBound (spec/GeoProof.tla explains the composition).
+    """
+    import concurrent.futures
+    names = THOROUGH_OBLIGATIONS if tier == "thorough" else QUICK_OBLIGATIONS
+    with concurrent.futures.ThreadPoolExecutor(max_workers=8) as pool:
+        return dict(pool.map(_apalache, names))
+
+
 def run(tier, seed):
     import harness.rig  # noqa: F401  (puts the repository on sys.path)
     started = time.time()
+    proofs = unbounded_obligations(tier)
+    if any(v == "REFUTED" for v in proofs.values()):
+        raise common.MachineryError("an unbounded geometry obligation was refuted: %s" % proofs)
     rng = random.Random(seed)
     consts = {"Coords": "{%s}" % ", ".join(map(str, COORDS)),
               "Centres": "{%s}" % ", ".join(map(str, CENTRES)),
@@ -131,6 +173,11 @@ def run(tier, seed):
                 "contained (the cases the soundness clause constrains)"
                 % (COORDS, CENTRES, RADII, frames, PMAX + 1, PMAX + 1),
         "contains_true": true_count,
+        "unbounded_obligations": proofs,
+        "obligations": len(proofs),
+        "discharged": sum(1 for v in proofs.values() if v == "discharged"),
+        "checker_cmd": "apalache-mc check --init=Init --next=Next --inv=<obligation> --length=0 "
+                       "GeoProof.tla",
         "model_checking": [{"slice": "MC_Geometry", "states": mc["states"],
                             "constants": consts,
                             "invariants": ["ContainsSound", "CornerOrder", "Degenerate"]}],
